@@ -140,6 +140,18 @@ def run_item(item):
             if got is not exp or got2 is not exp:
                 V("eq-" + ("missed" if exp else "false-equal"),
                   f"g == g.enantiomer() is {got}/{got2}; an isomorphism onto the mirror image {'exists' if exp else 'does not exist'}")
+        # the same graph with numpy-typed descriptor values (identifiers from an index array, parity as coords.handedness()
+        # returns it): enantiomer() must give the same mirror image
+        if m.astereo or m.bstereo or m.achg or m.bchg:
+            out["evals"] += 1
+            try:
+                en = U.build(m, np_values=True).enantiomer()
+                badn = same_graph(U.plain(U.from_real(en)), mir)
+                if badn:
+                    V("numpy-typed-not-mirror:" + "+".join(badn), f"enantiomer() of the graph built with numpy-typed descriptor values "
+                                                                   f"differs from the mirror image in {badn}")
+            except Exception as ex:
+                V("numpy-typed-raised:" + type(ex).__name__, f"enantiomer() raised {ex!r} for numpy-typed descriptor values")
         if not out["samples"]:
             out["samples"].append({"spec": U.describe(m), "mirror": U.describe(mir)})
     return out
